@@ -938,6 +938,7 @@ int		psf_store_read_chunk_u32 (READ_CHUNKS * pchk, uint32_t marker, sf_count_t o
 int		psf_store_read_chunk_str (READ_CHUNKS * pchk, const char * marker, sf_count_t offset, uint32_t len) ;
 int		psf_save_write_chunk (WRITE_CHUNKS * pchk, const SF_CHUNK_INFO * chunk_info) ;
 int		psf_chunk_id_is_printable (const SF_CHUNK_INFO * chunk_info) ;
+int		psf_chunk_id_is_one_of (const SF_CHUNK_INFO * chunk_info, const uint32_t * markers, int count) ;
 int		psf_find_read_chunk_str (const READ_CHUNKS * pchk, const char * marker) ;
 int		psf_find_read_chunk_m32 (const READ_CHUNKS * pchk, uint32_t marker) ;
 int		psf_find_read_chunk_iterator (const READ_CHUNKS * pchk, const SF_CHUNK_ITERATOR * marker) ;
